@@ -175,7 +175,11 @@ def leg_memcheck(leg, pid, tier, seed, rundir, gvh, root):
 
 def leg_miri(leg, pid, tier, seed, rundir, gvh, root):
     """cargo +nightly miri run on a toy workload; parameters via argv, many interleaving seeds for pools."""
-    flags = "-Zmiri-disable-isolation " + leg.get("miriflags", "")
+    # -Zmiri-deterministic-floats: by default Miri adds a random error of up to one ulp to float intrinsics (hypot, sin,
+    # powi, ...) to flush out code that relies on their exactness; geo's documented arithmetic (and the oracles of the
+    # monitors) do rely on e.g. hypot(3s,4s) == 5s, so under that mode the *oracle* fails on correct code. The Miri leg
+    # is there for undefined behaviour, aliasing and data races; its float arithmetic must be the machine's.
+    flags = "-Zmiri-disable-isolation -Zmiri-deterministic-floats " + leg.get("miriflags", "")
     seeds = leg.get("many_seeds")
     if seeds:
         flags += f" -Zmiri-many-seeds=0..{seeds}"
